@@ -202,6 +202,7 @@ def check_C05(ctx):
     ctx.model_must_hold(r, what='(mpz_and under every alias pattern)')
     b = ctx.build('default')
     paths = ctx.run_driver(b, 'alias', shards=16, timeout=1200)
+    paths += ctx.run_driver(b, 'alias_qf', shards=8, timeout=1200)          # every mpq and mpf function, same enumeration
     ctx.validate(paths)
     pp = ctx.run_driver(b, 'alias', shards=1, extra='pure,funs=mpz_add:mpz_sub:mpz_mul:mpz_tdiv_qr:mpz_and:mpz_ior:mpz_gcd:mpz_addmul:mpz_neg:mpz_mul_2exp:mpz_fdiv_q:mpz_cdiv_r', timeout=300)
     ctx.validate(pp, pure=True)
@@ -320,7 +321,7 @@ def check_C12(ctx):
     q = ctx.tier == 'quick'
     r = ctx.tlc_model('MpqOps', cfg_text=cfg(consts={'K': 7 if q else 11, 'Variant': '"ok"'}), name='MpqOps', timeout=3000)
     ctx.model_must_hold(r, what='(mpq_mul / mpq_add / mpq_sub store sequences under every alias pattern: exact and canonical)')
-    trace_drivers(ctx, [('c12', 16, 1500)], pure_drivers=['c12'])
+    trace_drivers(ctx, [('c12', 16, 1500), ('alias_qf', 4, 900)], pure_drivers=['c12'])
     return ctx.finish('model_checking',
         rule='R2: MpqOps = all canonical operand pairs with |num|,den<=K x all 27 identity triples x {mul,add,sub} through the transcribed store sequences. R3/R1: add/sub/mul/div/inv/neg/abs/'
              'mul_2exp/div_2exp/cmp*/equal/set_*/canonicalize/get_d on operands of 0..200 limbs built with prescribed common factors between the cross terms (each gcd branch), equal '
@@ -334,7 +335,7 @@ def check_C13(ctx):
     q = ctx.tier == 'quick'
     r = assume_model(ctx, 'MpfContract', {'P': 6 if q else 8}, timeout=3000)
     ctx.model_must_hold(r, what='(float accuracy/exactness predicates of SemF vs brute force on small dyadics)')
-    trace_drivers(ctx, [('c13', 16, 1500)], pure_drivers=['c13'])
+    trace_drivers(ctx, [('c13', 16, 1500), ('alias_qf', 4, 900)], pure_drivers=['c13'])
     return ctx.finish('model_checking',
         rule='R2: MpfContract checks the accuracy/exactness predicates the trace specification applies (Close, AccurateQuot, AccurateSqrt, CopyOf) against brute-force rational '
              'arithmetic on all small dyadics. R3/R1: add/sub/mul/div/sqrt and _ui forms, set_q/set_z/set_d, exact functions, comparisons and conversions for destination and operand precisions '
